@@ -109,6 +109,22 @@ pub fn child_main(req_file: &str) -> i32 {
             libc::access(c.as_ptr(), libc::F_OK);
         }
     };
+    // the parent blocks on this process's output: forward the progress counter so that its
+    // watchdog can tell a slow writer from a hung one
+    std::thread::spawn(|| {
+        let mut last = 0u64;
+        loop {
+            std::thread::sleep(std::time::Duration::from_millis(500));
+            let p = crate::exec::PROGRESS.load(std::sync::atomic::Ordering::Relaxed);
+            if p != last {
+                last = p;
+                let so = std::io::stdout();
+                let mut so = so.lock();
+                let _ = writeln!(so, "TICK");
+                let _ = so.flush();
+            }
+        }
+    });
     let r = crate::runner::guarded(&ctx, || {
         let mut e = Exec::new(&req.history, &ctx)?;
         e.on_sync_begin = Some(Box::new(|i| marker(i, "b")));
@@ -119,7 +135,10 @@ pub fn child_main(req_file: &str) -> i32 {
             let _ = writeln!(so, "SYNC {i} {}", need.join(","));
             let _ = so.flush();
             let mut line = String::new();
-            let _ = std::io::stdin().read_line(&mut line);
+            if let Ok(0) = std::io::stdin().read_line(&mut line) {
+                // the parent is gone (killed by its watchdog): do not linger
+                unsafe { libc::_exit(3) }
+            }
         }));
         e.run()?;
         Ok(e.rep.clone())
@@ -264,6 +283,10 @@ fn run_child_case(c: &C03Child, w: &WCtx) -> Result<Report, Failure> {
             Ok(l) => l,
             Err(_) => break,
         };
+        if line == "TICK" {
+            crate::exec::tick();
+            continue;
+        }
         if let Some(rest) = line.strip_prefix("SYNC ") {
             let mut it = rest.splitn(2, ' ');
             let i: usize = it.next().unwrap_or("0").parse().unwrap_or(0);
